@@ -4,9 +4,11 @@ import (
 	"flag"
 	"fmt"
 	"os"
+	"os/signal"
 	"runtime/pprof"
 	"sort"
 	"strings"
+	"syscall"
 	"time"
 
 	"bmsym/checks"
@@ -33,6 +35,13 @@ func heapProf() {
 
 func main() {
 	heapProf()
+	sigc := make(chan os.Signal, 1)
+	signal.Notify(sigc, syscall.SIGTERM, syscall.SIGINT, syscall.SIGHUP)
+	go func() {
+		<-sigc
+		smt.KillAll()
+		os.Exit(2)
+	}()
 	if len(os.Args) < 2 {
 		fmt.Fprintln(os.Stderr, "usage: bmsym <run|check> ...")
 		os.Exit(2)
